@@ -25,9 +25,9 @@ SepOf(cf) == CASE cf = "ssv" -> " " [] cf = "tsv" -> "TAB" [] cf = "pipes" -> "|
 IntLex == [x \in {"0", "1", "2", "3", "4", "5", "6", "7", "-1", "12"} |->
              CASE x = "0" -> 0 [] x = "1" -> 2 [] x = "2" -> 4 [] x = "3" -> 6 [] x = "4" -> 8
                [] x = "5" -> 10 [] x = "6" -> 12 [] x = "7" -> 14 [] x = "-1" -> -2 [] x = "12" -> 24]
-NumLex == [x \in DOMAIN IntLex \cup {"1.5", "2.5", "0.5"} |->
+NumLex == [x \in DOMAIN IntLex \cup {"1.5", "2.5", "0.5", "3.5"} |->
              IF x \in DOMAIN IntLex THEN IntLex[x]
-             ELSE CASE x = "1.5" -> 3 [] x = "2.5" -> 5 [] x = "0.5" -> 1]
+             ELSE CASE x = "1.5" -> 3 [] x = "2.5" -> 5 [] x = "0.5" -> 1 [] x = "3.5" -> 7]
 BoolLexTrue  == {"true", "1"}
 BoolLexFalse == {"false", "0"}
 
